@@ -197,17 +197,21 @@ R_CT = {"name": "R-CT", "run": _ct_run}
 
 _prop("C06", [R_CT], "",
       "instruction selection turning a select into a branch, variable-latency instructions (as for valgrind); the -O2 IR pass of the design is not built "
-      "(needs constant-integer memory slots for the inlined declassify); per-API symbolic roots with optional arguments toggled are not built",
+      "(needs constant-integer memory slots for the inlined declassify); public-parameter variations beyond those of fixtures/ct_variants.c",
       explanation="Constant time, decided over the LLVM IR of src/ctime_tests.c linked with the library by abstract interpretation (engine irx: byte-granular "
       "taint, sub-object extents, fully context-sensitive, all paths): secrets are exactly the bytes the maintainers mark with CHECKMEM_UNDEFINE, "
       "CHECKMEM_DEFINE / secp256k1_declassify clear them, and no tainted value reaches a branch or switch condition, a load / store / memcpy address, "
       "a memcpy / memset length, a div / rem operand or an indirect-call target in any function. One obligation per library entry point called by "
       "run_tests(), once as written and once with the context's blinding state (scalar_offset, ge_offset, proj_blind) secret from creation on "
-      "(randomized contexts). A positive-control fixture must be flagged on every run.",
+      "(randomized contexts). A third pass analyses /verif/fixtures/ct_variants.c, public-parameter variations of the same harness with the same secrets: "
+      "optional arguments present (explicit nonce functions with caller data, secret auxiliary randomness for BIP-340 and ElligatorSwift, extraparams), "
+      "variable-length Schnorr messages, 2 and 3 MuSig signers with plain and x-only tweaks and without adaptor, nonce_gen with all optional arguments "
+      "absent, a custom ECDH hash function, and the whole list again on a context randomized through the real API with a secret seed. "
+      "A positive-control fixture must be flagged on every run.",
       level="proof", engine="irx",
       technique="static analysis: abstract interpretation (taint / information flow) over whole-program LLVM IR, custom engine irx",
       trusted_base=["clang 14 -O0 IR generation + opt-14 mem2reg/loop-rotate/indvars/full-unroll(<=8)", "engines/irx.cc", "rules/r_ct.py",
-                    "src/ctime_tests.c as the secrecy specification", "models: memcpy/memset/malloc/abort, secp256k1_memcmp_var(n const), inline-asm effects from constraints"],
+                    "src/ctime_tests.c as the secrecy specification", "fixtures/ct_variants.c (same secrets, more public variations)", "models: memcpy/memset/malloc/abort, secp256k1_memcmp_var(n const), inline-asm effects from constraints"],
       assumptions=["-O0 IR mirrors the source statement by statement; a branch-free verdict there is the property's second sentence",
                    "secp256k1_declassify is trusted as the maintainers' statement that a value is public, exactly as valgrind trusts it",
                    "the blinding state cancels algebraically in the result of secp256k1_ecmult_gen (its taint is dropped from that result only)",
